@@ -824,7 +824,7 @@ func c20Pipeline(c *vx.Ctx) {
 
 func runC20(c *vx.Ctx) {
 	core.VScaleParams(core.VR1)
-	c.Rule = "algebra: grid of boundary amounts x 5 rates x 4 difficulties x both reward-fork sides; pipeline: every set of <=N conversions from a menu (direction x amount x slippage x destination gas) injected before a prime block on a real 3-level node, per-id monitor from origin to outcome"
+	c.Rule = "algebra: grid of boundary amounts x 5 rates x 4 difficulties x both reward-fork sides; pipeline: every set of <=N conversions from a menu (direction x amount x slippage x destination gas) injected before a prime block on a real 3-level node, per-id monitor from origin to outcome; every set also with each prime block of the drain mined as two siblings and (singles in quick) after two prime periods of conversion pressure with a live controller"
 	c.Assume("scaled protocol constants: " + fmt.Sprint(core.VScaled))
 	c.Assume("pipeline: flat exchange-rate trajectory (the controller's rate moves only marginally within the short histories); rising/falling trajectories are not steered")
 	if c.Wants("algebra") {
